@@ -39,12 +39,12 @@ BOUNDS = {
     "flag8": "all 256 bytes, all 2^8 flag lists, both bit orders",
     "str": "printable ASCII strings of length 1..8 without leading/trailing blank",
     "dtm": "all date-times years 1..9999 (Gregorian model) x dst x incl_seconds",
-    "dts": "all seconds of years 2000..2099",
+    "dts": "all seconds of years 2000..2099 given as datetime; all texts YY-MM-DDTHH:MM:SS with YY 00..99 (the %y pivot of strptime modelled: 69..99 -> 19xx)",
     "ids": "all 2^24 6-hex ids; all tt:nnnnnn with tt<=63, n<2^18; out-of-range tt 64..99 / n >= 2^18",
     "schedule setpoint": "all k/100 for k in [500, 3500]",
 }
 OUTSIDE = ["friendly id forms (CTL:123456)", "century wrap of 2-digit years", "non-ASCII text", "date-time h->v->h (decoder masks day-of-week/DST bits by design)"]
-STUBS = ["datetime -> symx.stubs.SymDateTime (Gregorian validity model, isoformat/strftime for %Y %y %m %d %H %M %S)",
+STUBS = ["datetime -> symx.stubs.SymDateTime (Gregorian validity model, isoformat/strftime for %Y %y %m %d %H %M %S; strptime full-width reading of the same directives)",
          "struct.pack/unpack '<xxBxxxBBH' / '<xxBxxxBBHxx' -> byte-layout model (schedule setpoint)"]
 ASSUMPTIONS = ["z3 FP theory implements IEEE-754 binary64 as CPython does (cross-checked on random operands by selfcheck)",
                "64/32-bit bit-vectors cannot wrap for the bounded inputs used"]
@@ -220,6 +220,11 @@ def k_flag8_hvh(inp, chk):
     h, lsb = inp["h"], inp["lsb"]
     flags = H.hex_to_flag8(h, lsb=lsb)
     chk(H.hex_from_flag8(flags, lsb=lsb) == h, "flag8:h->v->h")
+    # the decoded list belongs to the caller: editing it must not change what the next decode returns
+    flags[0] = 1 - flags[0]
+    again = H.hex_to_flag8(h, lsb=lsb)
+    chk(again is not flags, "flag8:decode-is-fresh")
+    chk(H.hex_from_flag8(again, lsb=lsb) == h, "flag8:decode-is-fresh")
     return "ok"
 
 
@@ -282,6 +287,24 @@ def k_dts_vhv(inp, chk):
         return "sentinel"
     want = _two(d.year % 100) + "-" + _two(d.month) + "-" + _two(d.day) + "T" + _two(d.hour) + ":" + _two(d.minute) + ":" + _two(d.second)
     chk(back == want, "dts:v->h->v")
+    return "ok"
+
+
+def k_dts_text(inp, chk):
+    """the decoder's own value type (text YY-MM-DDTHH:MM:SS) -> hex -> text, every year field 00..99"""
+    H, _ = _mods()
+    t = inp["t"]
+    hx = H.hex_from_dts(t)
+    chk(len(hx) == 12, "dts:hex-length")
+    try:
+        back = H.hex_to_dts(hx)
+    except ValueError:
+        chk(False, "dts:text->h->text")
+        return "decoder-rejects"
+    if back is None:
+        chk(False, "dts:text->h->text")
+        return "sentinel"
+    chk(back == t, "dts:text->h->text")
     return "ok"
 
 
@@ -350,7 +373,7 @@ def k_sched_setpoint(inp, chk):
 
 
 KERNELS = {f.__name__: f for f in (k_temp_hvh, k_temp_vhv, k_temp_range, k_percent_hvh, k_percent_vhv, k_double_hvh, k_double_vhv,
-                                   k_bool_hvh, k_bool_vhv, k_flag8_hvh, k_flag8_vhv, k_str_vhv, k_dtm_vhv, k_dts_vhv, k_date,
+                                   k_bool_hvh, k_bool_vhv, k_flag8_hvh, k_flag8_vhv, k_str_vhv, k_dtm_vhv, k_dts_vhv, k_dts_text, k_date,
                                    k_id_hvh, k_id_vhv, k_sched_setpoint)}
 
 
@@ -471,6 +494,21 @@ def queries(tier, seed):
             raise PathAbort()
         return {"dt": reg_dt(ctx, d)}
     qs.append(_q("dts_vhv[2000-2099]", k_dts_vhv, bdts, "bv", secs, weight=2, width=64))
+    def bdts_text(ctx, ylo, yhi):
+        import z3
+        from symx.stubs import days_in_month_cond
+        from symx.strings import mk
+        f = {k: symx.sym_digits(ctx, k, 2) for k in ("yy", "mo", "dd", "hh", "mi", "ss")}
+        v = {k: symx.values.sx_int(x).e for k, x in f.items()}
+        year = z3.If(v["yy"] <= 68, v["yy"] + 2000, v["yy"] + 1900)  # the %y pivot of strptime
+        ctx.assume(z3.And(v["yy"] >= ylo, v["yy"] <= yhi, days_in_month_cond(year, v["mo"], v["dd"]), v["hh"] <= 23, v["mi"] <= 59, v["ss"] <= 59))
+        t = mk(list(f["yy"].chars) + ["-"] + list(f["mo"].chars) + ["-"] + list(f["dd"].chars) + ["T"] + list(f["hh"].chars) + [":"] + list(f["mi"].chars) + [":"] + list(f["ss"].chars))
+        for k in f:
+            ctx.inputs.pop(k, None)
+        ctx.inputs["t"] = t
+        return {"t": t}
+    for ylo, yhi in ((0, 68), (69, 99)):
+        qs.append(_q(f"dts_text[yy={ylo}-{yhi}]", k_dts_text, lambda ctx, a=ylo, b=yhi: bdts_text(ctx, a, b), "bv", secs, weight=2, width=64))
     def bdate(ctx):
         import z3
         from symx.stubs import days_in_month_cond
